@@ -295,6 +295,15 @@ func report(prop, tier string, seed int, l *Loaded, results []*taskResult, known
 		}
 	}
 
+	// every listed finding of the property gets its line, also when this run (e.g. a run restricted
+	// with -only, or a tier that does not build the state) found no witness inside its region
+	for _, k := range known {
+		if !knownPrinted[k.What] {
+			knownPrinted[k.What] = true
+			fmt.Printf("KNOWN-FINDING: property=%s %s [listed; no witness inside its region in this run]\n", prop, k.What)
+		}
+	}
+
 	if censusC19 != nil {
 		// every nondeterminism site of the state-machine packages must have been executed by
 		// a self-composition harness (under independent symbolic resolutions)
